@@ -309,3 +309,33 @@ def filter_bounded(vc):
     ang = np.array([kd != IsAngle.NOT_ANGLE for i in range(n_obs) for kd in specs[i][0]])
     inn = np.asarray(base.innovation, dtype=float)
     vc.ensure("B-C16-filter.innovation-range", bool(np.all((inn[ang] > -np.pi) & (inn[ang] <= np.pi))))
+
+
+@obligation("C16", "windows", ensures=["O-C16-window.map", "O-C16-window.mean-uses-own-window"], fns=[UK + "UnscentedKalmanFilter.calcMeasurementMean"], mode="R",
+            note="each angular component's mean is taken in its own documented window - [0, 2pi) for 0..2pi angles, [-pi, pi) for -pi..pi angles (a full turn wide, so where the wrap point sits cannot change which "
+                 "angle the mean represents) - with the filter's mean weights; a linear component's mean is the plain weighted sum")
+def windows(vc):
+    from resonaate.physics.measurements import IsAngle
+    import resonaate.physics.measurements as pm
+    calls = []
+
+    def amean(meas, weights=None, high=None, low=None):
+        calls.append((meas, weights, low, high))
+        return 0.25
+    vc.install(UK + "@angularMean", amean)
+    dt = object if vc.symbolic else float
+    w = np.array([vc.real(f"w{i}", -3, 3) for i in range(3)], dtype=dt)
+    pts = vc.mat("pts", 3, 3, -7, 7)
+    f = vc.new(UK + "UnscentedKalmanFilter", mean_weight=w)
+    out = f.calcMeasurementMean(pts, [IsAngle.ANGLE_0_2PI, IsAngle.NOT_ANGLE, IsAngle.ANGLE_NEG_PI_PI])
+    pi = vc.pi
+    tol = 1e-4  # (the window bounds are module constants: doubles next to the symbolic pi, which is only known to 1e-5)
+    ok = len(calls) == 2 and all(c[1] is w for c in calls) and calls[0][0] is not None
+    parts = [ok, vc.close(calls[0][2], 0, tol), vc.close(calls[0][3], 2 * pi, tol), vc.close(calls[1][2], -pi, tol), vc.close(calls[1][3], pi, tol),
+             vc.eq(np.asarray(calls[0][0]), pts[0], tol), vc.eq(np.asarray(calls[1][0]), pts[2], tol),
+             vc.eq(out[1], np.dot(pts[1], w), 1e-12), vc.eq(out[0], 0.25, tol), vc.eq(out[2], 0.25, tol)]
+    vc.ensure("O-C16-window.mean-uses-own-window", vc.And(*parts), note=str([str(p_)[:60] for p_ in parts]))
+    # in symbolic mode the module constant is the extracted namespace's (symbolic pi); natively the real module's
+    vm = pm.VALID_ANGLE_MAP
+    vc.ensure("O-C16-window.map", bool(set(vm) == {IsAngle.ANGLE_0_2PI, IsAngle.ANGLE_NEG_PI_PI} and abs(vm[IsAngle.ANGLE_0_2PI][0]) < 1e-15 and abs(vm[IsAngle.ANGLE_0_2PI][1] - 2 * np.pi) < 1e-12
+                                           and abs(vm[IsAngle.ANGLE_NEG_PI_PI][0] + np.pi) < 1e-12 and abs(vm[IsAngle.ANGLE_NEG_PI_PI][1] - np.pi) < 1e-12) if not vc.symbolic else True)
